@@ -210,6 +210,7 @@ type pathComm struct {
 	srvPanic  string
 	hsQueries int
 	lastQuery time.Time
+	loss      *hsLoss // c11_commit.go: one exchange of the handshake fails once (nil = static path)
 }
 
 func (c *pathComm) Close() error {
@@ -464,9 +465,15 @@ func (c *pathComm) SendAndReceive(m *dns.Msg, timeout *time.Duration) (*dns.Msg,
 		return nil, 0, c.timeoutErr(m)
 	}
 	c.queries++
-	resp, err := c.exchange(m)
+	var resp *dns.Msg
+	var err error
+	if c.loss != nil && c.loss.hits(c, m) {
+		resp, err = c.loss.apply(c, m)
+	} else {
+		resp, err = c.exchange(m)
+	}
 	c.lastQuery = time.Now()
-	if c.phase == 0 {
+	if c.phase == 0 && c.loss == nil {
 		c.record(m, resp, err)
 	} else if hsDebug && err != nil {
 		fmt.Fprintf(os.Stderr, "DATA-PHASE exchange error: %.300v\n", err)
@@ -885,7 +892,7 @@ func runHsPath(p hsPath) hsRun {
 	if run.monitor != "" {
 		return run
 	}
-	run.monitor = hsDataCheck(p, comm, srv, client, qn, upn, downn)
+	run.monitor = hsDataCheck(p, comm, srv, client, qn, upn, downn, nil)
 	if run.monitor != "" {
 		run.class += "-datafail"
 	}
@@ -899,7 +906,9 @@ func runHsPath(p hsPath) hsRun {
 }
 
 // hsDataCheck pushes data both ways through the established connection and compares.
-func hsDataCheck(p hsPath, comm *pathComm, srv *sdns.ServerDnsListener, client *sdns.ClientDnsConnection, qn, upn, downn string) string {
+// accepted != nil: the server-side connection was accepted by the caller, who also compares the two ends' parameters
+// itself (c11_commit.go); the fragment sizes that count are then the ones the two senders really cut.
+func hsDataCheck(p hsPath, comm *pathComm, srv *sdns.ServerDnsListener, client *sdns.ClientDnsConnection, qn, upn, downn string, accepted net.Conn) string {
 	tag := fmt.Sprintf("q=%s up=%s down=%s", qn, upn, downn)
 	ser := client.Serializer
 	if ser.Upstream.Encoder == nil || ser.Downstream.Encoder == nil {
@@ -911,21 +920,26 @@ func hsDataCheck(p hsPath, comm *pathComm, srv *sdns.ServerDnsListener, client *
 	comm.deadline = time.Now().Add(dataWall)
 	comm.mu.Unlock()
 
-	var sc net.Conn
-	if !hsWithTimeout(3*time.Second, func() { sc, _ = srv.Accept() }) || sc == nil {
+	sc := accepted
+	if sc == nil && (!hsWithTimeout(3*time.Second, func() { sc, _ = srv.Accept() }) || sc == nil) {
 		return "no server-side connection " + tag
 	}
 	ss, ok := sdns.VerifUserSerializer(sc)
 	if !ok {
 		return "server connection of unexpected type " + tag
 	}
-	if ss.Upstream.Encoder != ser.Upstream.Encoder || ss.Downstream.Encoder != ser.Downstream.Encoder {
-		return fmt.Sprintf("server mirror differs: up=%s down=%s %s", hsCodecName(ss.Upstream.Encoder), hsCodecName(ss.Downstream.Encoder), tag)
-	}
-	if ss.Downstream.FragmentSize != ser.Downstream.FragmentSize {
-		return fmt.Sprintf("server mirror differs: downfrag=%d client=%d %s", ss.Downstream.FragmentSize, ser.Downstream.FragmentSize, tag)
+	if accepted == nil {
+		if ss.Upstream.Encoder != ser.Upstream.Encoder || ss.Downstream.Encoder != ser.Downstream.Encoder {
+			return fmt.Sprintf("server mirror differs: up=%s down=%s %s", hsCodecName(ss.Upstream.Encoder), hsCodecName(ss.Downstream.Encoder), tag)
+		}
+		if ss.Downstream.FragmentSize != ser.Downstream.FragmentSize {
+			return fmt.Sprintf("server mirror differs: downfrag=%d client=%d %s", ss.Downstream.FragmentSize, ser.Downstream.FragmentSize, tag)
+		}
 	}
 	uf, df := int(ser.Upstream.FragmentSize), int(ser.Downstream.FragmentSize)
+	if accepted != nil {
+		df = int(ss.Downstream.FragmentSize) // what the server really cuts
+	}
 	if uf <= 0 || df <= 0 {
 		return fmt.Sprintf("success with fragment size 0 (up=%d down=%d) %s", uf, df, tag)
 	}
